@@ -41,7 +41,7 @@ EmptySt ==
   [tid |-> "", family |-> "", clients |-> {}, docs |-> {}, threshold |-> 0, interval |-> 0,
    log |-> <<>>, epoch |-> <<>>, removed |-> <<>>, nopres |-> <<>>, ref |-> <<>>, pre |-> <<>>,
    rep |-> <<>>, resp |-> <<>>, att |-> <<>>, gcoff |-> <<>>, active |-> <<>>, lastReq |-> <<>>,
-   lastResCp |-> <<>>, hist |-> <<>>]
+   lastResCp |-> <<>>, hist |-> <<>>, row |-> <<>>]
 
 InitSt(e) ==
   LET cs == Range(e.clients)
@@ -61,6 +61,8 @@ InitSt(e) ==
       gcoff   |-> [k \in K |-> FALSE],       \* attachment opted out of GC
       active  |-> [c \in cs |-> TRUE],
       lastReq |-> [k \in K |-> <<>>],        \* version vector of the client's last request
+      row     |-> [k \in K |-> [has |-> FALSE, vv |-> <<>>]],  \* ghost of tblVersionVectors: vector of the last
+                                             \* successful request of an attached participating client
       lastResCp |-> [k \in K |-> <<0, 0>>],  \* checkpoint of the last response of the session
       hist    |-> [k \in K |-> [past |-> <<>>, future |-> <<>>]]]
 
@@ -211,16 +213,22 @@ PPStep(s, e) ==
       pulledInc == \A i, j \in DOMAIN res.pulled : i < j => res.pulled[i].s < res.pulled[j].s
       noEcho == \A i \in DOMAIN res.pulled :
                   LET p == res.pulled[i] IN (p.s >= 1 /\ p.s <= Len(log2)) => log2[p.s].id # <<e.c, e.sess, p.cs>>
-      others == {x \in DOMAIN s.att : x[2] = d /\ x # k /\ s.att[x] = "attached" /\ ~s.gcoff[x]}
+      others == {x \in DOMAIN s.row : x[2] = d /\ x # k /\ s.row[x].has}
+      \* C06: never above what an attached participating client acknowledged
       minSound ==
         (e.ok /\ e.hasmin /\ res.hasvv /\ ~res.snap) =>
           /\ VVLeq(res.vv, e.req.vv)
-          /\ \A x \in others : VVLeq(res.vv, s.lastReq[x])
+          /\ \A x \in others : VVLeq(res.vv, s.row[x].vv)
+      \* C11: never below the minimum over the clients that are still attached -
+      \* a client that detached or was deactivated no longer holds GC back
+      minNotHeldBack ==
+        (e.ok /\ e.hasmin /\ res.hasvv /\ ~res.snap /\ known /\ e.status = "attached") =>
+          VVLeq(MinVV({e.req.vv} \cup {s.row[x].vv : x \in others}), res.vv)
       vRes ==
         IF ~e.ok THEN {}
         ELSE Chk(pulledOK, "PulledMatchesLog") \cup Chk(pulledInc, "PulledInOrder") \cup Chk(noEcho, "NoEcho") \cup
-             Chk(minSound, "MinVVSound") \cup
-             Chk(res.cp[1] <= Len(log2), "ResponseCheckpointBound") \cup
+             Chk(minSound, "MinVVSound") \cup Chk(minNotHeldBack, "MinVVNotHeldBack") \cup
+             Chk(~stale => res.cp[1] <= Len(log2), "ResponseCheckpointBound") \cup
              Chk((known /\ e.rpc = "sync" /\ ~e.pushonly) => res.cp[1] >= s.lastResCp[k][1], "CheckpointMonotone") \cup
              Chk((e.nopresdoc \/ e.nopres) => (\A i \in DOMAIN res.pulled : res.pulled[i].pres = "none"), "NoPresenceInResponses") \cup
              Chk((e.nopresdoc \/ e.nopres) /\ res.snap => res.snappres = "", "NoPresenceInSnapshots") \cup
@@ -239,6 +247,10 @@ PPStep(s, e) ==
                       !.att = att2, !.gcoff = gc2,
                       !.resp = IF known THEN Upd(@, k, Append(@[k], respRec)) ELSE @,
                       !.lastReq = IF known THEN Upd(@, k, e.req.vv) ELSE @,
+                      !.row = IF known /\ e.ok
+                              THEN Upd(@, k, IF e.status = "attached" /\ ~e.gcoff THEN [has |-> TRUE, vv |-> e.req.vv]
+                                             ELSE IF e.status = "attached" THEN @[k] ELSE [has |-> FALSE, vv |-> <<>>])
+                              ELSE @,
                       !.lastResCp = IF known /\ e.ok /\ e.status = "attached" /\ ~e.pushonly THEN Upd(@, k, res.cp) ELSE @]
   IN R(s2, vStore \cup vRes)
 
@@ -257,11 +269,11 @@ RepOf(e, old, k, s) ==
 
 \* apply one response to the ghost applied-set of replica rp (doc d)
 ApplyResp(s, d, rp, rs) ==
-  IF ~rs.ok THEN rp
+  IF ~rs.ok \/ rs.epoch # rp.epoch THEN rp
   ELSE IF rs.snap
        THEN LET n == IF rs.cp.s <= Len(s.log[d]) THEN rs.cp.s ELSE Len(s.log[d])
                 rows == {s.log[d][i] : i \in 1..n}
-            IN [rp EXCEPT !.applied = @ \cup {r.id : r \in rows}, !.epoch = rs.epoch,
+            IN [rp EXCEPT !.applied = @ \cup {r.id : r \in rows},
                           !.seenlam = Max2(@, VVMaxLamport(rs.vv)),
                           !.seenvv = VVMax(@, rs.vv)]
        ELSE LET rows == {s.log[d][i] : i \in {j \in Range(rs.pulled) : j >= 1 /\ j <= Len(s.log[d])}}
@@ -270,7 +282,7 @@ ApplyResp(s, d, rp, rs) ==
                 newlam == CHOOSE m \in lams : \A x \in lams : x <= m
                 RECURSIVE Fold(_, _)
                 Fold(S, acc) == IF S = {} THEN acc ELSE LET x == CHOOSE y \in S : TRUE IN Fold(S \ {x}, VVMax(acc, x.vv))
-            IN [rp EXCEPT !.applied = @ \cup {r.id : r \in rows}, !.epoch = rs.epoch,
+            IN [rp EXCEPT !.applied = @ \cup {r.id : r \in rows},
                           !.seenlam = newlam, !.seenvv = Fold(clk, @)]
 
 RECURSIVE ApplyAll(_, _, _, _)
@@ -359,6 +371,7 @@ CompactStep(s, e) ==
       headc == IF Len(s.ref[d]) >= 1 THEN s.ref[d][Len(s.ref[d])].content ELSE "{}"
       s2 == IF e.ok
             THEN [s EXCEPT !.log = Upd(@, d, newlog), !.epoch = Upd(@, d, e.epoch), !.ref = Upd(@, d, <<>>),
+                           !.row = [x \in DOMAIN @ |-> IF x[2] = d THEN [has |-> FALSE, vv |-> <<>>] ELSE @[x]],
                            !.pre = Upd(@, d, [has |-> Len(newlog) >= 1, content |-> headc])]
             ELSE s
   IN R(s2, v)
